@@ -6,12 +6,25 @@
     is the no-reference case.
     Float layer (index of the reference level, acceptance / refusal):
     Model/RefIndex.v, bit-exact PrimFloat, tied by an exhaustive sweep in the
-    correspondence check.  Partial: "every multiple k*step is accepted and
-    mapped to k" is proved for |k| <= 3000 and the listed steps by a complete
-    sweep (bounded theorem below), not for all k and all steps. *)
+    correspondence check.  General theorems (Proofs/RefIndexFlocq.v, over the
+    reals with Flocq's binary64 formalisation):
+    - every float product k*step, for ANY normal finite step (2^-1022 <= step,
+      |k|*step <= 2^1023) and ANY integer |k| < 2^51, is accepted and mapped to
+      k (C09_multiples_accepted, and the same with float-comparison hypotheses);
+      the bound 2^51 is tight (Example C09_bound_2p51_tight: an odd k < 2^52
+      with step 0.1 that is refused);
+    - any float within 1e-8 - slack of k*step (and within step/4), |k| < 2^50,
+      is accepted and mapped to k (covers references typed as decimal text);
+    - anything accepted with index k is within 1.0000000000000002e-8 + slack of
+      k*step, hence a level farther than that from every multiple is refused;
+      slack k step = 2^-53*|k*step| + 2^-1075 (rounding of the product).
+    Side conditions are explicit hypotheses (finite operands, step > 0,
+    |ref| <= 2^51*step on the refusal side).  The earlier bounded sweep is kept. *)
 From Spowtd Require Import Model.FitOffsets Model.RefIndex Proofs.QSum Proofs.FitOffsetsSpec
-  Proofs.InvarianceSpec Proofs.RefIndexSweep.
-From Coq Require Import PrimFloat.
+  Proofs.InvarianceSpec Proofs.RefIndexSweep Proofs.RegridFlocq Proofs.RefIndexFlocq.
+From Coq Require Import ZArith Reals.
+From Flocq Require Import Core.Core IEEE754.BinarySingleNaN IEEE754.PrimFloat.
+From Coq Require Import PrimFloat FloatOps.
 
 Theorem C09_origin_at_reference : forall E x ref c,
   In c (at_head E ref) -> head_mean E (fun s => x s - head_mean E x ref) ref == 0.
@@ -33,6 +46,106 @@ Theorem C09_multiples_accepted_bounded : forall step k,
   reference_index (PrimFloat.mul (float_of_Z k) step) step = Ok k.
 Proof. exact multiples_accepted_bounded. Qed.
 Print Assumptions C09_multiples_accepted_bounded.
+
+(** GENERAL: every multiple k*step (float product, the way the master-curve
+    views compute their levels) of every finite normal step is accepted and
+    mapped to level k, for every integer |k| < 2^51, provided the product does
+    not overflow. *)
+Theorem C09_multiples_accepted : forall (step : float) (k : Z),
+  BinarySingleNaN.is_finite (Prim2B step) = true ->
+  (bpow radix2 (-1022) <= fval step)%R ->
+  (Z.abs k < 2 ^ 51)%Z ->
+  (IZR (Z.abs k) * fval step <= bpow radix2 1023)%R ->
+  reference_index (PrimFloat.mul (float_of_Z k) step) step = Ok k.
+Proof. exact multiples_accepted_general. Qed.
+Print Assumptions C09_multiples_accepted.
+
+(** the same with hypotheses that are float comparisons *)
+Theorem C09_multiples_accepted_float_hyps : forall (step : float) (k : Z),
+  (0x1p-1022 <=? step)%float = true -> (step <=? 0x1p+970)%float = true ->
+  (Z.abs k < 2 ^ 51)%Z ->
+  reference_index (PrimFloat.mul (float_of_Z k) step) step = Ok k.
+Proof. exact multiples_accepted_float_hyps. Qed.
+Print Assumptions C09_multiples_accepted_float_hyps.
+
+(** any float close enough to a multiple is accepted and mapped to it *)
+Theorem C09_near_multiple_accepted : forall (ref step : float) (k : Z),
+  BinarySingleNaN.is_finite (Prim2B ref) = true ->
+  BinarySingleNaN.is_finite (Prim2B step) = true -> (0 < fval step)%R ->
+  (Z.abs k < 2 ^ 50)%Z ->
+  (Rabs (fval ref - IZR k * fval step) <= / 4 * fval step)%R ->
+  (Rabs (fval ref - IZR k * fval step) + slack k step <= 1e-8)%R ->
+  reference_index ref step = Ok k.
+Proof. exact near_multiple_accepted. Qed.
+Print Assumptions C09_near_multiple_accepted.
+
+(** anything accepted is (nearly) the nearest index and within 1e-8 + slack of
+    the multiple it is mapped to *)
+Theorem C09_accepted_near_multiple : forall (ref step : float) (k : Z),
+  BinarySingleNaN.is_finite (Prim2B ref) = true ->
+  BinarySingleNaN.is_finite (Prim2B step) = true -> (0 < fval step)%R ->
+  (Rabs (fval ref) <= bpow radix2 51 * fval step)%R ->
+  reference_index ref step = Ok k ->
+  (Z.abs k <= 2 ^ 51)%Z /\
+  (Rabs (IZR k - fval ref / fval step) <= / 2 + bpow radix2 (-2))%R /\
+  (Rabs (fval ref - IZR k * fval step) < 1.0000000000000002e-8 + slack k step)%R.
+Proof. exact accepted_near_multiple. Qed.
+Print Assumptions C09_accepted_near_multiple.
+
+(** a level that is not (within 1e-8 + slack of) a multiple of the step is refused *)
+Theorem C09_off_grid_refused : forall (ref step : float),
+  BinarySingleNaN.is_finite (Prim2B ref) = true ->
+  BinarySingleNaN.is_finite (Prim2B step) = true -> (0 < fval step)%R ->
+  (Rabs (fval ref) <= bpow radix2 51 * fval step)%R ->
+  (forall k : Z, (Z.abs k <= 2 ^ 51)%Z ->
+     (1.0000000000000002e-8 + slack k step <= Rabs (fval ref - IZR k * fval step))%R) ->
+  reference_index ref step = Err EValue.
+Proof. exact off_grid_refused. Qed.
+Print Assumptions C09_off_grid_refused.
+
+(** Non-vacuity of the hypotheses (step 0.1, k = 12345; 0.3 typed as text on a
+    0.1 grid; 2.5 on a 1 mm grid) and tightness of the bound 2^51. *)
+Example C09_multiples_accepted_nonvacuous :
+  BinarySingleNaN.is_finite (Prim2B f0_1) = true /\
+  (bpow radix2 (-1022) <= fval f0_1)%R /\ (Z.abs 12345 < 2 ^ 51)%Z /\
+  (IZR (Z.abs 12345) * fval f0_1 <= bpow radix2 1023)%R /\
+  reference_index (PrimFloat.mul (float_of_Z 12345) f0_1) f0_1 = Ok 12345%Z.
+Proof. exact general_hyps_example. Qed.
+
+Example C09_float_hyps_nonvacuous :
+  (0x1p-1022 <=? f0_1)%float = true /\ (f0_1 <=? 0x1p+970)%float = true.
+Proof. vm_compute. split; reflexivity. Qed.
+
+Example C09_bound_2p51_tight :
+  (2 ^ 51 < 4007345515705267 < 2 ^ 52)%Z /\
+  reference_index (PrimFloat.mul (float_of_Z 4007345515705267) f0_1) f0_1 = Err EValue.
+Proof. exact bound_2p51_tight. Qed.
+
+Example C09_near_multiple_nonvacuous :
+  BinarySingleNaN.is_finite (Prim2B f0_3) = true /\
+  BinarySingleNaN.is_finite (Prim2B f0_1) = true /\ (0 < fval f0_1)%R /\
+  (Z.abs 3 < 2 ^ 50)%Z /\
+  (Rabs (fval f0_3 - IZR 3 * fval f0_1) <= / 4 * fval f0_1)%R /\
+  (Rabs (fval f0_3 - IZR 3 * fval f0_1) + slack 3 f0_1 <= 1e-8)%R /\
+  f0_3 <> PrimFloat.mul (float_of_Z 3) f0_1 /\
+  reference_index f0_3 f0_1 = Ok 3%Z.
+Proof. exact near_multiple_example. Qed.
+
+Example C09_accepted_near_nonvacuous :
+  BinarySingleNaN.is_finite (Prim2B f0_3) = true /\
+  BinarySingleNaN.is_finite (Prim2B f0_1) = true /\ (0 < fval f0_1)%R /\
+  (Rabs (fval f0_3) <= bpow radix2 51 * fval f0_1)%R /\
+  reference_index f0_3 f0_1 = Ok 3%Z.
+Proof. exact accepted_near_example. Qed.
+
+Example C09_off_grid_nonvacuous :
+  BinarySingleNaN.is_finite (Prim2B f2_5) = true /\
+  BinarySingleNaN.is_finite (Prim2B 1%float) = true /\ (0 < fval 1%float)%R /\
+  (Rabs (fval f2_5) <= bpow radix2 51 * fval 1%float)%R /\
+  (forall k : Z, (Z.abs k <= 2 ^ 51)%Z ->
+     (1.0000000000000002e-8 + slack k 1%float <= Rabs (fval f2_5 - IZR k * fval 1%float))%R) /\
+  reference_index f2_5 1%float = Err EValue.
+Proof. exact off_grid_example. Qed.
 
 (** Concrete float facts (the two witnesses of the repaired defect and an
     off-grid reference), by evaluation of the bit-exact model. *)
